@@ -369,6 +369,31 @@ class Program:
             raise AnalysisBroken('anchor macro %s not found in %s' % (name, file))
         return m
 
+    def macro_int(self, name, depth=0):
+        """Integer value of an object-like macro (follows chains of names and
+        simple parenthesised / cast character or integer literals)."""
+        import re
+        if depth > 8:
+            raise AnalysisBroken('macro %s: chain too deep' % name)
+        c = [m for (n, f), m in self.macros.items() if n == name and not m.get('fnlike')]
+        if not c:
+            if name in self.enums:
+                return self.enums[name]
+            raise AnalysisBroken('anchor macro %s not found' % name)
+        body = c[0]['body'].strip()
+        body = re.sub(r'\(\s*(unsigned\s+)?(int|char|long)\s*\)', '', body)
+        body = body.replace('(', ' ').replace(')', ' ').strip()
+        m = re.fullmatch(r"'(.)'", body)
+        if m:
+            return ord(m.group(1))
+        if re.fullmatch(r'-?\d+[uUlL]*', body):
+            return int(re.sub(r'[uUlL]+$', '', body))
+        if re.fullmatch(r'0[xX][0-9a-fA-F]+[uUlL]*', body):
+            return int(re.sub(r'[uUlL]+$', '', body), 16)
+        if re.fullmatch(r'[A-Za-z_][A-Za-z0-9_]*', body):
+            return self.macro_int(body, depth + 1)
+        raise AnalysisBroken('macro %s has a body this evaluator does not handle: %s' % (name, body))
+
     def record(self, name):
         r = self.records.get(name)
         if r is None:
